@@ -459,3 +459,29 @@ PROPS = {
                               {"test": "^TestC03Net$", "shards": 1, "timeout": 900, "group": 3, "weight": 16, "env": {"VERIF_C03_RACE": "1"}}]},
     },
 }
+
+# Additions made after the seeded-change waves 9-11 (kept apart so the older text above stays as it was reviewed).
+_LATER = {
+    "C01": "TestC01Register: the per-tracker send path (hook VerifRegister) with name / description / password lengths from {0,1,50,127,128,200,237..240,254,255}: the tracker socket receives exactly one datagram that equals the reference encoding (non-trivial = record longer than 508 bytes); TestC01 scribbles over the source buffer after constructing a field (the field must have kept its own copy)",
+    "C02": "folder uploads leave leftovers (partial and complete items) that both partitions must agree on; the session client's replies are compared in order; a banner may be configured (same in both worlds)",
+    "C03": "while the hostile connections end, three goroutines read the server counters (Stats.Values) in a loop: a reader that blocks forever is a wedge (watchdog); TestC03Net: transfer-port storm kinds, the sentinel downloads a file of its own root before, during and after each batch and after bursts of 40 simultaneous transfer connections, and must get the file's bytes",
+    "C04": "logins whose file names are odd (.ops, a.b, x.yaml, -dash, ~t, #h), the data-size word of the login transaction varied, creations that must be refused (login with a path separator, 250 bytes) made before the attempt: none of them may open a door",
+    "C05": "cells added: ../-names in upload / rename, side-file kinds, an account record without a name (the logged-in name must be the one the account allows); TestC05GhostCategory: post-article to a news path that does not exist, by a requester without create-category / create-bundle: no grouping may appear in memory or in the file",
+    "C06": "TestC06RenameForm (update-user rename form), TestC06GraceWindow, TestC06TwoCreators (two creators at one instant: neither account holds a bit its creator lacks), TestC06Bystander (a protected user sharing the kicked user's address is neither dropped nor refused), schedule point before registry delete in TestC06LoginWindow",
+    "C07": "aliases are made in one folder and then moved to another (shallower or deeper) one: the link must still resolve inside the root; an account with a root of its own is edited through set-user and the server restarted; the file root is spelled with trailing separators / dot segments / relative forms",
+    "C08": "client-info requests between grant and transfer; comments of 32 600-65 535 bytes; paths 254-300 folders deep; TestC08ManyGrants: up to hundreds of outstanding grants (files and banner) redeemed in drawn order, each delivers its own bytes; TestC08Slow (child process): 24 MiB file, the reader pauses 33 s after the first MiB and must still get every byte",
+    "C09": "a download of the name while the upload is partial (must not serve the partial under the final name); info forks without the comment-size word; TestC09HugeAnnounced: announced data-fork sizes of 2^31..2^32-1 with a stream that ends early: no file under the final name, the partial holds a prefix",
+    "C10": "download trees are decorated with stored resource / info side files, aliases and leftovers of interrupted uploads (X.incomplete): each item's bytes must match its own header and names arrive unchanged; PreserveResourceForks drawn in downloads; after preserve uploads the stored forks are checked",
+    "C11": "comments of 33 000 / 60 000 bytes; every fourth listed file is downloaded through to its bytes; TestC11BigSizes: sparse files of 2^24..2^32-1 bytes, list == get-info == download reply == size on disk; TestC11WideFolder: folders of 65 536 / 65 537 / 65 540 visible entries plus hidden ones are listed with their entry count",
+    "C12": "restarts (chats are gone afterwards), invitations by non-members, the refuse-private-chat preference (decline notice names the decliner, never addressed to chat 0), names containing %, unknown chat ids other than 0",
+    "C13": "set-user edits of an account whose user is connected (disconnect / same / other name), followed by the same presence comparison",
+    "C14": "latecomers who log in while the plan runs (agreements of several sizes), a 300-article news listing, requests naming unknown chats sent by a connection of their own; TestC14Stalled: the stalled clients start reading again after 1 s .. 10 min of fake time and must receive whole transactions only, every queued broadcast at most once",
+    "C15": "passwords of 73 / 100 / 255 bytes (bcrypt's limit is 72), names of 300 / 500 / 2000 bytes, new-user over a file that another login's record occupies; no two accounts may share a stored password hash (also the password-less ones)",
+    "C16": "TestC16Wire: creation of shadow logins (./u, u/., U) next to an existing one, set-user spelled in another case, and the account listing fetched before and after an edit must show the edit",
+    "C17": "a protected account; kicks aimed at a user who is leaving at that instant; reloads of the ban file racing a ban (the in-memory answer is compared too); TestC17Net (child process, production accept loop): three clients from three loopback addresses, one is kicked with a ban: only its address is refused afterwards, the others reconnect",
+    "C18": "stale paths whose last component is missing; the path field absent / empty / zero-count / truncated; delete-item followed by listings of the former sub-paths; posts after deletions keep their parent",
+    "C19": "reloads that fail (unreadable file) and posts that fail (unwritable file; the post may or may not count, nothing else may change), reloads during rounds, operator trims of the board between reads, the date stamp of each post compared with the fake clock (minute of day drawn)",
+    "C20": "accounts in the legacy storage form are migrated at start-up (privileges compared over the defined bits); after every kill point the touched accounts are also deleted and, for a crashed rename, the new login is created afresh: both must be acknowledged and no other account may vanish; TestC20Acked also compares the in-memory category with the news file at each acknowledgement and includes news replies",
+}
+for _k, _v in _LATER.items():
+    PROPS[_k]["rule"] += "; LATER ADDITIONS: " + _v
